@@ -86,7 +86,7 @@ func (g *docGen) strText() string {
 			g.stats["invalid-utf8"]++
 			g.unsafe = true
 		case 7:
-			sb.WriteString([]string{"<", ">", "&", "'", "</script>"}[g.rng.IntN(5)])
+			sb.WriteString([]string{"<", ">", "&", "'", "</script>", "100%", "%d", "%s%v", "%!"}[g.rng.IntN(9)])
 		default:
 			sb.WriteByte("abcxyz 0123,:[]{}"[g.rng.IntN(17)])
 		}
@@ -444,11 +444,11 @@ func c04Cases(tier string) int {
 	if tier == "thorough" {
 		return 1 + 100000 + 500000
 	}
-	return 1 + 4000 + 20000
+	return 1 + 10000 + 60000
 }
 
 func c04Run(c *Case) {
-	nc := 4000
+	nc := 10000
 	if c.Tier == "thorough" {
 		nc = 100000
 	}
